@@ -212,7 +212,13 @@ func (t *c02Trie) Commit(onleaf trie.LeafCallback) (common.Hash, error) {
 	t.s.tdb.Insert(t.s.next, []byte{0x51})
 	return t.s.next, nil
 }
-func (t *c02Trie) Hash() common.Hash                             { return t.root }
+func (t *c02Trie) Hash() common.Hash {
+	// root after the pending changes: the fake processor announces it in s.next
+	if t.s.next != (common.Hash{}) {
+		return t.s.next
+	}
+	return t.root
+}
 func (t *c02Trie) NodeIterator(startKey []byte) trie.NodeIterator { return nil }
 func (t *c02Trie) GetKey(k []byte) []byte                        { return k }
 func (t *c02Trie) Prove(key []byte, fromLevel uint, proofDb aquadb.Putter) error {
@@ -352,6 +358,10 @@ func (f *c02Fix) block(parent *types.Block, diff *big.Int, txs ...*types.Transac
 		h.ParentHash = parent.Hash()
 	}
 	h.Version = f.cfg.GetBlockVersion(h.Number)
+	// roots as the real BlockValidator checks them (leaf hashers stubbed under the engine)
+	h.UncleHash = types.CalcUncleHash(nil)
+	h.TxHash = types.DeriveSha(types.Transactions(txs))
+	h.ReceiptHash = types.DeriveSha(c02ReceiptsN(len(txs)))
 	b := types.NewBlockWithHeader(h)
 	if len(txs) > 0 {
 		b = b.WithBody(txs, nil)
@@ -359,9 +369,11 @@ func (f *c02Fix) block(parent *types.Block, diff *big.Int, txs ...*types.Transac
 	return b
 }
 
-func c02Receipts(b *types.Block) types.Receipts {
+func c02Receipts(b *types.Block) types.Receipts { return c02ReceiptsN(len(b.Transactions())) }
+
+func c02ReceiptsN(n int) types.Receipts {
 	var rs types.Receipts
-	for i := range b.Transactions() {
+	for i := 0; i < n; i++ {
 		rs = append(rs, types.NewReceipt(nil, false, uint64(21000*(i+1))))
 	}
 	return rs
@@ -439,6 +451,13 @@ func c02Open(db *c02DB, cfg *params.ChainConfig, archive bool) (*BlockChain, *c0
 	}
 	hc.currentHeaderHash = hc.CurrentHeader().Hash()
 	bc.hc = hc
+	// import path collaborators: the real BlockValidator over a consensus engine
+	// that accepts every header/uncle set, and a processor that produces the
+	// fixture's receipts and announces the block's state root
+	bc.engine = c02Engine{}
+	hc.engine = bc.engine
+	bc.validator = NewBlockValidator(cfg, bc, bc.engine)
+	bc.processor = &c02Processor{sdb: sdb}
 	bc.genesisBlock = bc.GetBlockByNumber(0)
 	if bc.genesisBlock == nil {
 		return nil, nil, ErrNoGenesis
